@@ -224,6 +224,7 @@ pub fn c20() -> Check {
     })
     .pbt(crate::threads::ThreadedStall)
     .pbt(crate::threads::Wakeups)
+    .pbt(crate::threads::RejectedWrites)
 }
 
 pub fn c02() -> Check {
